@@ -1,6 +1,7 @@
 package phase0
 
 import (
+	"fmt"
 	"github.com/protolambda/zrnt/eth2/beacon/common"
 	"github.com/protolambda/ztyp/codec"
 	"github.com/protolambda/ztyp/tree"
@@ -184,11 +185,20 @@ func AsPendingAttestation(v View, err error) (*PendingAttestationView, error) {
 type PendingAttestations []*PendingAttestation
 
 func (a *PendingAttestations) Deserialize(spec *common.Spec, dr *codec.DecodingReader) error {
-	return dr.List(func() codec.Deserializable {
+	start, scope := len(*a), dr.Scope()
+	if err := dr.List(func() codec.Deserializable {
 		i := len(*a)
 		*a = append(*a, &PendingAttestation{})
 		return spec.Wrap((*a)[i])
-	}, 0, uint64(spec.MAX_ATTESTATIONS)*uint64(spec.SLOTS_PER_EPOCH))
+	}, 0, uint64(spec.MAX_ATTESTATIONS)*uint64(spec.SLOTS_PER_EPOCH)); err != nil {
+		return err
+	}
+	// dr.List does not decode an element whose span is empty, it leaves a zero value in place.
+	// A pending attestation is never empty: then the decoded list does not account for the given bytes.
+	if got := (*a)[start:].ByteLength(spec); got != scope {
+		return fmt.Errorf("list of %d bytes decodes to elements of %d bytes: element with an empty span", scope, got)
+	}
+	return nil
 }
 
 func (a PendingAttestations) Serialize(spec *common.Spec, w *codec.EncodingWriter) error {
